@@ -161,7 +161,10 @@ def h_iter(b0: bool, b1: bool, b2: bool, eo: int) -> bool:
             self.p = str(p)
 
         def rglob(self, pat):
-            return [FP(n) for n in order] if self.p == "/r/one" else []
+            if self.p == "/r/one":
+                return [FP(n) for n in order]
+            # the second code-base directory lies inside the first: its file is enumerated a second time by the walk
+            return [FP(n) for n in order if n.startswith("/r/one/sub/")] if self.p == "/r/one/sub" else []
 
         def __str__(self):
             return self.p
@@ -169,11 +172,17 @@ def h_iter(b0: bool, b1: bool, b2: bool, eo: int) -> bool:
         def __lt__(self, other):  # as pathlib: component-wise
             return self.p.split("/") < other.p.split("/")
 
+        def __eq__(self, other):
+            return isinstance(other, FP) and self.p == other.p
+
+        def __hash__(self):
+            return len(self.p)
+
     STATS["compared"] += 1
     if P.get("_twin"):
         return False
     cb = codebasin.CodeBase.__new__(codebasin.CodeBase)
-    cb._directories = [FP("/r/one"), FP("/r/two")]
+    cb._directories = [FP("/r/one"), FP("/r/one/sub")]
     cb._excludes = []
     member = dict(zip(names, bits))
     old_p, old_c = codebasin.Path, codebasin.CodeBase.__contains__
